@@ -2,6 +2,8 @@ package callsim
 
 import (
 	"fmt"
+	"os"
+	"path/filepath"
 
 	"verifsim/corpus"
 	"verifsim/evid"
@@ -19,6 +21,64 @@ type Session struct {
 	Whole  map[string]*val.V `json:"whole"`  // inputs of the reference whole-sequence Run
 	Cuts   []int             `json:"cuts"`
 	Config string            `json:"config"`
+	// Layout (defaults: sequence axis 0 of X and Y, outputs Y / Y_h / Y_c)
+	SeqAxis int    `json:"seq_axis,omitempty"`
+	YOut    string `json:"y_out,omitempty"`
+	HOut    string `json:"h_out,omitempty"`
+	COut    string `json:"c_out,omitempty"`
+}
+
+func (s *Session) names() (y, h, c string) {
+	y, h, c = s.YOut, s.HOut, s.COut
+	if y == "" {
+		y = "Y"
+	}
+	if h == "" {
+		h = "Y_h"
+	}
+	if c == "" && s.Kind == "LSTM" {
+		c = "Y_c"
+	}
+	return
+}
+
+// sliceAxis returns v[..., a:b, ...] along axis.
+func sliceAxis(v *val.V, axis, a, b int) *val.V {
+	outer := val.NElems(v.Shape[:axis])
+	inner := val.NElems(v.Shape[axis+1:])
+	n := v.Shape[axis]
+	o := &val.V{DT: v.DT, Shape: append([]int{}, v.Shape...)}
+	o.Shape[axis] = b - a
+	for i := 0; i < outer; i++ {
+		base := i * n * inner
+		o.Bits = append(o.Bits, v.Bits[base+a*inner:base+b*inner]...)
+	}
+	return o
+}
+
+// concatAxis joins values along axis (all other extents equal); nil if they do not fit.
+func concatAxis(vs []*val.V, axis int) *val.V {
+	if len(vs) == 0 || vs[0] == nil || axis >= len(vs[0].Shape) {
+		return nil
+	}
+	outer := val.NElems(vs[0].Shape[:axis])
+	inner := val.NElems(vs[0].Shape[axis+1:])
+	o := &val.V{DT: vs[0].DT, Shape: append([]int{}, vs[0].Shape...)}
+	total := 0
+	for _, v := range vs {
+		if v == nil || v.Bad != "" || len(v.Shape) != len(o.Shape) || val.NElems(v.Shape[:axis]) != outer || val.NElems(v.Shape[axis+1:]) != inner {
+			return nil
+		}
+		total += v.Shape[axis]
+	}
+	o.Shape[axis] = total
+	for i := 0; i < outer; i++ {
+		for _, v := range vs {
+			n := v.Shape[axis]
+			o.Bits = append(o.Bits, v.Bits[i*n*inner:(i+1)*n*inner]...)
+		}
+	}
+	return o
 }
 
 // recModel is a recurrent model whose X has dynamic seq and batch axes and whose states are graph inputs.
@@ -205,7 +265,8 @@ func judge06(c *Case, wr *worldRun, rc *refCache) []verdict {
 		add := func(sig, what string) {
 			vs = append(vs, verdict{sig: sig, what: fmt.Sprintf("session %d (task %d, %s, cuts %v): %s", si, s.Task, s.Config, s.Cuts, what), task: s.Task})
 		}
-		var ycat []uint64
+		yName, hName, cName := s.names()
+		var ys []*val.V
 		var last *callResult
 		failed := ""
 		skipped := false
@@ -224,9 +285,7 @@ func judge06(c *Case, wr *worldRun, rc *refCache) []verdict {
 			if res.OutLate != nil {
 				outs = res.OutLate
 			}
-			if y := outs["Y"]; y != nil {
-				ycat = append(ycat, y.Bits...)
-			}
+			ys = append(ys, outs[yName])
 			last = res
 		}
 		if skipped && failed == "" {
@@ -243,14 +302,15 @@ func judge06(c *Case, wr *worldRun, rc *refCache) []verdict {
 		case ref.Kind != "ok" && failed == "":
 			add("split-outcome-differs:"+s.Kind+":whole=failed,pieces=ok", fmt.Sprintf("the whole sequence fails (%s: %s) but every piece runs", ref.Kind, clip(ref.Err, 120)))
 		case ref.Kind == "ok":
-			wy := ref.Out["Y"]
-			if wy == nil || len(wy.Bits) != len(ycat) {
-				add("split-differs:"+s.Kind+":Y-shape", fmt.Sprintf("concatenated Y has %d elements, whole Y %v", len(ycat), wy))
+			wy := ref.Out[yName]
+			ycat := concatAxis(ys, s.SeqAxis)
+			if wy == nil || ycat == nil || len(wy.Bits) != len(ycat.Bits) {
+				add("split-differs:"+s.Kind+":Y-shape", fmt.Sprintf("the pieces' %s do not concatenate to the whole-sequence %s %v", yName, yName, wy))
 				continue
 			}
-			for i := range ycat {
-				if ycat[i] != wy.Bits[i] {
-					add("split-differs:"+s.Kind+":Y", fmt.Sprintf("element %d of concatenated Y is %#x, whole-sequence Y has %#x", i, ycat[i], wy.Bits[i]))
+			for i := range ycat.Bits {
+				if ycat.Bits[i] != wy.Bits[i] {
+					add("split-differs:"+s.Kind+":Y", fmt.Sprintf("element %d of the concatenated %s is %#x, the whole-sequence run has %#x", i, yName, ycat.Bits[i], wy.Bits[i]))
 					break
 				}
 			}
@@ -258,11 +318,11 @@ func judge06(c *Case, wr *worldRun, rc *refCache) []verdict {
 			if last.OutLate != nil {
 				lo = last.OutLate
 			}
-			if !val.Equal(ref.Out["Y_h"], lo["Y_h"]) {
-				add("split-differs:"+s.Kind+":Y_h", "final hidden state: "+val.Diff(ref.Out["Y_h"], lo["Y_h"]))
+			if !val.Equal(ref.Out[hName], lo[hName]) {
+				add("split-differs:"+s.Kind+":Y_h", "final hidden state: "+val.Diff(ref.Out[hName], lo[hName]))
 			}
-			if s.Kind == "LSTM" && !val.Equal(ref.Out["Y_c"], lo["Y_c"]) {
-				add("split-differs:"+s.Kind+":Y_c", "final cell state: "+val.Diff(ref.Out["Y_c"], lo["Y_c"]))
+			if cName != "" && !val.Equal(ref.Out[cName], lo[cName]) {
+				add("split-differs:"+s.Kind+":Y_c", "final cell state: "+val.Diff(ref.Out[cName], lo[cName]))
 			}
 		}
 	}
@@ -345,6 +405,50 @@ func Worker06(cfg Config) *evid.Stats {
 				}
 			}
 		}
+	}
+	// the repository's own exported GRU model (batch-first layout, Transpose/Squeeze around the GRU node): every
+	// single cut for seq 2..6 and a few cuts of the 30-step sequence the repo's test uses
+	if b, err := os.ReadFile(filepath.Join(cfg.RepoDir, "sample_models", "onnx_models", "gru.onnx")); err == nil {
+		spec := ModelSpec{Name: "sample:gru.onnx", Bytes: b, Ops: []string{"GRU"}}
+		for _, seq := range []int{2, 3, 4, 5, 6, 30} {
+			cutsets := [][]int{}
+			for a := 1; a < seq; a++ {
+				if seq <= 6 || a == 1 || a == 7 || a == 15 || a == 29 {
+					cutsets = append(cutsets, []int{a})
+				}
+			}
+			if seq == 30 {
+				cutsets = append(cutsets, []int{1, 2}, []int{10, 20}, []int{5, 6, 29})
+			}
+			for _, cuts := range cutsets {
+				for batch := 1; batch <= 2; batch++ {
+					mine := idx%cfg.NW == cfg.W
+					idx++
+					if !mine || rn.stop {
+						continue
+					}
+					r := rng.New(rng.Mix(cfg.Seed, 0x06a, uint64(seq), uint64(cuts[0]), uint64(len(cuts)), uint64(batch)))
+					X := corpus.RandF32(r, []int{batch, seq, 3}, -1, 1)
+					h0 := corpus.RandF32(r, []int{1, batch, 5}, -1, 1)
+					s := Session{Task: 0, Model: 0, Kind: "GRU", Whole: map[string]*val.V{"data_input": X, "init_hidden": h0}, Cuts: cuts,
+						Config: "sample gru.onnx (batch-first)", SeqAxis: 1, YOut: "preds", HOut: "hidden_out"}
+					bounds := append(append([]int{0}, cuts...), seq)
+					var t Task
+					for i := 0; i+1 < len(bounds); i++ {
+						call := Call{Kind: KPiece, Model: 0, Ref: i - 1, Inputs: map[string]*val.V{"data_input": sliceAxis(X, 1, bounds[i], bounds[i+1]), "init_hidden": h0.Clone()}}
+						if i > 0 {
+							call.Carry = map[string]string{"init_hidden": "hidden_out"}
+						}
+						t.Calls = append(t.Calls, call)
+						s.Pieces = append(s.Pieces, i)
+					}
+					one(&Case{Prop: "C06", Policy: "enumerated-cuts-sample-gru", World: World{Models: []ModelSpec{spec}, Tasks: []Task{t}}, Sessions: []Session{s}})
+					st.Probe("enumerated_cut_sample_gru")
+				}
+			}
+		}
+	} else {
+		st.Trouble = append(st.Trouble, "sample gru.onnx not found under "+cfg.RepoDir)
 	}
 	for i := int64(cfg.W); !rn.expired(); i += int64(cfg.NW) {
 		one(drawWorld06(rng.New(rng.Mix(cfg.Seed, 0x06, uint64(i)))))
